@@ -8,13 +8,17 @@
      Triangular        support j is 1 at master j and 0 at every earlier master
      MasterExact       evaluating regions x deltas at master m gives master m's value
      Weights           interpolating from masters = interpolating from getDeltas
-   ModelOf(..) below additionally transcribes the code's ordering and box-splitting rule;
+   (Triangular is the lemma that makes MasterExact true for the forward substitution
+   GetDeltas.)  SortMasters / ModelSupports / GetDeltas / GetMasterScalars below additionally
+   transcribe the code's master ordering, box-splitting rule and the two substitutions;
    MC_Model checks that the transcription satisfies the contract for every master set of
-   a lattice.
+   a lattice.  There is no normative rule for HOW the boxes are cut (only that the result
+   is a valid region set with the properties above), so a difference between the code and
+   ModelSupports that keeps the contract is a refactoring note, not a violation.
 
    Locations and supports are dense (module VarSem): a location is a sequence of Rat, one
-   per axis; supports are sequences of tents.  Master lists are in MODEL order unless
-   stated; `mapping[u]` is the model index of the user's master u (1-based here). *)
+   per axis; supports are sequences of tents.  Master lists are in MODEL order (the order
+   of VariationModel.locations) unless stated. *)
 EXTENDS VarSem, FiniteSets, TLC
 
 Origin(n) == TLCEval([a \in 1..n |-> RZero])
